@@ -99,7 +99,7 @@ structure RegsGood : Prop where
 
 /-- keys of the surveillance reply that the flattened Comm-B selector must not repeat -/
 def commbAvoid : List Nat :=
-  [(key! "df").id, (key! "altitude").id, (key! "squawk").id, (key! "icao24").id]
+  [(key! "df").id, (key! "altitude").id, (key! "squawk").id, (key! "icao24").id] ++ timedKeys
 
 /-- what the selector contributes to the message object: distinct `bdsXX` keys, none clashing with the
     reply's own keys, each present register a well-formed in-range object -/
